@@ -485,6 +485,33 @@ fn family() -> Vec<EvalCase> {
             }
         }
     }
+    // two comparisons of one subject joined by and / or (a range check): both bounds are evaluated as far as laziness allows,
+    // whatever the subject is (none, missing, a number)
+    for subject in [Expr::index(Expr::reff("vm"), Index::Map("nokey".into())), Expr::index(Expr::reff("vm"), Index::Map("a".into())), Expr::reff("t")] {
+        for (k1, k2) in [("gte", "lte"), ("gt", "lt"), ("lte", "gte"), ("gte", "gte")] {
+            for joiner in ["and", "or"] {
+                for bound in 0..3u8 {
+                    let b1 = match bound {
+                        0 => Expr::index(Expr::func("lp", Expr::value(98_001)), Index::Vec(1)),
+                        1 => Expr::div(Expr::value(1), Expr::value(0)),
+                        _ => Expr::func("fp", Expr::value(98_002)),
+                    };
+                    let b2 = Expr::index(Expr::func("lp", Expr::value(98_003)), Index::Vec(1));
+                    out.push(mk_case(mk2(joiner, mk2(k1, subject.clone(), b1), mk2(k2, subject.clone(), b2))));
+                }
+            }
+        }
+    }
+    // a call that fails on a none argument the way `param.try_into()?` does ends the evaluation like any other failure
+    for wrap in 0..3u8 {
+        let failing = Expr::func("fp", Expr::Value(Value::None));
+        let after = Expr::func("lp", Expr::value(98_010));
+        out.push(mk_case(match wrap {
+            0 => Expr::Vec(vec![failing, after]),
+            1 => Expr::add(failing, after),
+            _ => Expr::Vec(vec![Expr::func("fp", Expr::Vec(vec![Expr::value(1), Expr::Value(Value::None)])), after]),
+        }));
+    }
     // long lists and maps: every item once, in order, up to the failing one
     for n in [33usize, 129, 300] {
         for bad in [n / 2, n - 1, n] {
